@@ -64,8 +64,14 @@ class CombiningPatternEncoder(PatternEncoderBase):
             min_n_conn = max(src.min_conns if src.max_inf else src.conns[0],
                              tgt.min_conns if tgt.max_inf else tgt.conns[0])
             max_n_conn = effective_settings.get_max_conn_matrix()[0, 0]
-            n_opts = max_n_conn-min_n_conn+1
-            self._min_max_map[existence] = (min_n_conn, max_n_conn)
+
+            # Only the connection amounts accepted by both nodes (their lists may be non-contiguous, e.g. 0 or 2)
+            n_conns = [n for n in range(min_n_conn, max_n_conn+1)
+                       if all(n >= node.min_conns if node.max_inf else n in node.conns for node in (src, tgt))]
+            if len(n_conns) == 0:
+                n_conns = [min_n_conn]
+            n_opts = len(n_conns)
+            self._min_max_map[existence] = n_conns
         else:
             n_opts = len(effective_settings.tgt)
 
@@ -80,14 +86,13 @@ class CombiningPatternEncoder(PatternEncoderBase):
         if self.is_collapsed:
             if existence not in self._min_max_map:
                 raise RuntimeError(f'Unexpected existence pattern: {existence}')
-            min_n_conn, max_n_conn = self._min_max_map[existence]
+            n_conns_list = self._min_max_map[existence]
             if len(vector) == 0:
-                n_conns = min_n_conn
+                n_conns = n_conns_list[0]
             else:
-                n_conns = min_n_conn+vector[0]
-                if n_conns > max_n_conn:
-                    n_conns = max_n_conn
-                    vector = [max_n_conn-min_n_conn]
+                if vector[0] >= len(n_conns_list):
+                    vector = [len(n_conns_list)-1]
+                n_conns = n_conns_list[vector[0]]
 
             matrix = np.array([[n_conns]], dtype=int)
             return vector, matrix
@@ -112,12 +117,12 @@ class CombiningPatternEncoder(PatternEncoderBase):
         if self.is_collapsed:
             if existence not in self._min_max_map:
                 raise RuntimeError(f'Unexpected existence pattern: {existence}')
-            min_n_conn, max_n_conn = self._min_max_map[existence]
+            n_conns_list = self._min_max_map[existence]
 
-            i_opts = np.arange(max_n_conn-min_n_conn+1)
+            i_opts = np.arange(len(n_conns_list))
             design_vectors = np.array([i_opts]).T
             matrices = np.zeros((len(i_opts), 1, 1), dtype=int)
-            matrices[:, 0, 0] = min_n_conn+i_opts
+            matrices[:, 0, 0] = n_conns_list
             return design_vectors, matrices
 
         n_tgt = len(effective_settings.tgt)
@@ -133,8 +138,7 @@ class CombiningPatternEncoder(PatternEncoderBase):
         if self.is_collapsed:
             if existence not in self._min_max_map:
                 raise RuntimeError(f'Unexpected existence pattern: {existence}')
-            min_n_conn, max_n_conn = self._min_max_map[existence]
-            i_opts = np.arange(max_n_conn-min_n_conn+1)
+            i_opts = np.arange(len(self._min_max_map[existence]))
             design_vectors = np.array([i_opts]).T
             return design_vectors
 
